@@ -39,7 +39,7 @@ pub fn regime_name(r: Regime) -> &'static str {
 pub fn run_generated(pname: &str, seed: u64) -> RunOut {
     let mut gen = Gen::new(seed, profile(pname));
     let regime = gen.regime;
-    let mut sim = Sim::new(SimCfg { regime, monitors: true });
+    let mut sim = Sim::new(SimCfg { regime, monitors: true, guard_mag: false });
     let mut trace = Vec::new();
     crate::train::drive(&mut sim, &mut gen, &mut trace);
     let actors = std::mem::take(&mut gen.actor_log);
@@ -48,7 +48,7 @@ pub fn run_generated(pname: &str, seed: u64) -> RunOut {
 }
 
 pub fn run_trace(events: &[Ev], regime: Regime, monitors: bool) -> Sim {
-    let mut sim = Sim::new(SimCfg { regime, monitors });
+    let mut sim = Sim::new(SimCfg { regime, monitors, guard_mag: false });
     let mut src = crate::train::ListSource { evs: events, i: 0 };
     let mut rec = Vec::new();
     crate::train::drive(&mut sim, &mut src, &mut rec);
@@ -87,6 +87,11 @@ pub fn load_findings() -> Findings {
     }
 }
 
+/// Does a violation of property `vp` count for the check of `prop`? The f32 check judges every monitor.
+pub fn counts_for(vp: &str, prop: &str) -> bool {
+    vp == prop || prop == "C19"
+}
+
 pub fn match_finding<'a>(f: &'a Findings, v: &Violation) -> Option<&'a Finding> {
     f.findings.iter().find(|k| {
         k.status == "known" && k.property == v.prop && (k.monitor.is_empty() || k.monitor == "*" || k.monitor == v.monitor) && k.class_contains.iter().all(|c| v.class.contains(c.as_str()))
@@ -99,7 +104,7 @@ pub fn match_finding<'a>(f: &'a Findings, v: &Violation) -> Option<&'a Finding> 
 pub type Judge<'a> = dyn Fn(&[Ev]) -> Vec<Violation> + 'a;
 
 fn still_fails(judge: &Judge, evs: &[Ev], prop: &str, monitor: &str, kf: &Findings, want_kf: Option<&str>) -> bool {
-    judge(evs).iter().any(|v| v.prop == prop && v.monitor == monitor && match_finding(kf, v).map(|k| k.id.as_str()) == want_kf)
+    judge(evs).iter().any(|v| counts_for(v.prop, prop) && v.monitor == monitor && match_finding(kf, v).map(|k| k.id.as_str()) == want_kf)
 }
 
 pub fn ddmin(judge: &Judge, events: &[Ev], prop: &str, monitor: &str, kf: &Findings, want_kf: Option<&str>, keep_indices: bool) -> Vec<Ev> {
@@ -346,6 +351,7 @@ pub fn nontrivial(prop: &str, out: &RunOut) -> bool {
         "C11" => s.passes.iter().any(|p| p.custom_nodes >= 1 && p.max_fan_in >= 2),
         "C13" => s.c13_nontrivial > 0,
         "C18" => s.c18_nontrivial > 0,
+        "C19" => (!s.passes.is_empty() && out.regime == Regime::Smooth) || s.cnt.updates > 0 || s.train.iterations > 0,
         "C14" => s.train.iterations >= 3 && s.train.layers >= 2 && (s.train.batch_changes > 0 || s.train.kept_outputs > 0),
         _ => !s.passes.is_empty(),
     }
@@ -395,6 +401,11 @@ pub fn plan_for(prop: &str, tier: &str, seed: u64) -> Plan {
     };
     let scale = std::env::var("VERIF_RUNS_SCALE").ok().and_then(|s| s.parse::<f64>().ok()).unwrap_or(1.0);
     let base = ((base as f64) * scale) as u64;
+    if prop == "C19" {
+        let names = ["C01", "C03", "C09", "C10", "C11", "C12", "C13", "C14", "C17", "C18"];
+        let per = base / 2 / names.len() as u64;
+        return Plan { prop: prop.to_string(), tier: tier.to_string(), seed, mix: names.iter().map(|n| (n.to_string(), if matches!(*n, "C10" | "C12" | "C17") { per / 3 } else { per })).collect() };
+    }
     let own = prop.to_string();
     let mut mix = vec![(own.clone(), base * 6 / 10)];
     let others: Vec<&str> = match prop {
@@ -524,18 +535,18 @@ fn absorb(agg: &mut Agg, prop: &str, pname: &str, idx: u64, seed: u64, out: &Run
     agg.digest_xor ^= out.digest.rotate_left((idx % 63) as u32);
     agg.digest_sum = agg.digest_sum.wrapping_add(out.digest.wrapping_mul(idx | 1));
     for v in s.violations.iter().chain(extra.iter()) {
-        if v.prop == prop {
+        if counts_for(v.prop, prop) {
             agg.viols.push((pname.to_string(), idx, seed, v.clone()));
         } else {
             *agg.other_prop_hits.entry(format!("{}:{}", v.prop, v.monitor)).or_insert(0) += 1;
         }
     }
-    if idx < 3 && pname == prop {
+    if idx < 1 && (pname == prop || prop == "C19") || idx < 3 && pname == prop {
         let sample = json!({"profile": pname, "run": idx, "seed": seed, "regime": regime_name(out.regime), "nontrivial": nt, "relational_case": rel.sample,
             "events": out.trace.iter().zip(&out.actors).map(|(e, a)| format!("[{}] {}", a, ev_compact(e))).collect::<Vec<_>>() });
         agg.samples.push((idx, sample));
     }
-    if nt && pname == prop {
+    if nt && (pname == prop || prop == "C19") {
         let better = match &agg.nontrivial_sample {
             None => true,
             Some((i, _)) => idx < *i,
@@ -611,7 +622,8 @@ pub struct RelOut {
 }
 
 /// Extra (relational) oracles evaluated on a finished run.
-pub fn relational(prop: &str, tier: &str, idx: u64, out: &RunOut, seed: u64) -> RelOut {
+pub fn relational(prop: &str, pname: &str, tier: &str, idx: u64, out: &RunOut, seed: u64) -> RelOut {
+    let prop = if prop == "C19" { pname } else { prop };
     match prop {
         "C10" => {
             let (viols, forks, _) = crate::relational::c10_solo(out);
@@ -666,7 +678,7 @@ pub fn run_batch(plan: &Plan, wall_cap_s: f64) -> (Agg, bool) {
                         }
                         let seed = derive(base, &label, i);
                         let out = run_generated(&pname, seed);
-                        let rel = relational(&prop, &tier, i, &out, seed);
+                        let rel = relational(&prop, &pname, &tier, i, &out, seed);
                         absorb(&mut agg, &prop, &pname, i, seed, &out, rel);
                     }
                     let mut t = total.lock().unwrap();
@@ -735,7 +747,7 @@ fn write_replay(prop: &str, pname: &str, idx: u64, seed: u64, base: u64, regime:
     };
     let dir = format!("{}/replays", VERIF);
     let _ = std::fs::create_dir_all(&dir);
-    let path = format!("{}/{}-{}-{}-{}-{}{}.json", dir, prop, v.monitor, base, pname, idx, tag);
+    let path = format!("{}/{}-{}-{}-{}-{}{}{}.json", dir, prop, v.monitor, base, pname, idx, tag, if cfg!(feature = "f32") { "-f32" } else { "" });
     std::fs::write(&path, serde_json::to_string_pretty(&r).unwrap()).expect("cannot write replay file");
     path
 }
@@ -759,12 +771,32 @@ pub fn replay_file(path: &str) -> i32 {
         eprintln!("harness error: replay was recorded on the {} build, this is the {} build", r.build, build_name());
         return 2;
     }
+    if r.monitor == "cross_build_int" {
+        for (i, e) in r.events.iter().enumerate() {
+            println!("  t{:<3} {}", i, ev_compact(e));
+        }
+        return match crate::c19::cross_replay(&r.events) {
+            Ok(Some(d)) => {
+                println!("{}", d);
+                println!("VIOLATION property=C19 replay={}", path);
+                1
+            }
+            Ok(None) => {
+                println!("replay of {}: both builds agree", path);
+                0
+            }
+            Err(e) => {
+                eprintln!("harness error: {}", e);
+                2
+            }
+        };
+    }
     let regime = if r.regime == "smooth" { Regime::Smooth } else { Regime::Int };
     let viols = crate::runner::judge_replay(&r, regime);
     let kf = load_findings();
     let mut hit = false;
     for v in &viols {
-        if v.prop == r.property && v.monitor == r.monitor {
+        if counts_for(v.prop, &r.property) && v.monitor == r.monitor {
             println!("event {} ({}): [{}] {}", v.event, r.events.get(v.event).map(ev_compact).unwrap_or_default(), v.class, v.detail);
             if let Some(k) = match_finding(&kf, v) {
                 println!("KNOWN-FINDING: property={} {} ({})", v.prop, k.what, k.id);
@@ -791,6 +823,9 @@ pub fn judge_replay(r: &Replay, regime: Regime) -> Vec<Violation> {
 }
 
 pub fn check(prop: &str, tier: &str) -> i32 {
+    if prop == "C19" && !cfg!(feature = "f32") {
+        return check_c19_parent(tier);
+    }
     let seed: u64 = std::env::var("VERIF_SEED").ok().and_then(|s| s.parse().ok()).unwrap_or(1);
     let start = Instant::now();
     let plan = plan_for(prop, tier, seed);
@@ -831,7 +866,7 @@ pub fn check(prop: &str, tier: &str) -> i32 {
         let (judge_full, keep_indices) = judge_for(monitor, regime, &v.extra);
         let full_path = write_replay(prop, pname, *idx, *rseed, seed, regime, &out.trace, v, "-full");
         let min = ddmin(&*judge_full, &out.trace, prop, monitor, &kf, None, keep_indices);
-        let mv = judge_full(&min).into_iter().find(|x| x.prop == prop && x.monitor == *monitor && match_finding(&kf, x).is_none());
+        let mv = judge_full(&min).into_iter().find(|x| counts_for(x.prop, prop) && x.monitor == *monitor && match_finding(&kf, x).is_none());
         let (path, shown) = match mv {
             Some(mut mv) => {
                 if mv.extra.is_null() {
@@ -913,9 +948,10 @@ pub fn check(prop: &str, tier: &str) -> i32 {
         },
         "assumptions": assumptions(prop),
     });
-    let dir = format!("{}/evidence", VERIF);
+    let native_f32 = prop == "C19" && cfg!(feature = "f32");
+    let dir = if native_f32 { format!("{}/work", VERIF) } else { format!("{}/evidence", VERIF) };
     let _ = std::fs::create_dir_all(&dir);
-    let path = format!("{}/{}.json", dir, prop);
+    let path = if native_f32 { format!("{}/C19.native-f32.json", dir) } else { format!("{}/{}.json", dir, prop) };
     if let Err(e) = std::fs::write(&path, serde_json::to_string_pretty(&ev).unwrap()) {
         eprintln!("harness error: cannot write evidence {}: {}", path, e);
         return 2;
@@ -945,6 +981,7 @@ fn rule_text(prop: &str) -> String {
         "C10" => ">= 2 passes whose differentiated graphs share at least one non-root node.",
         "C11" => "a pass over a graph with user closures in which some node has >= 2 tracked in-graph consumers.",
         "C13" => "an update over >= 3 parameters of >= 2 distinct shapes with a frozen parameter that is not the last one.",
+        "C19" => "(f32 build) the history contains a pass over a graph with non-integer data, or an optimizer update / training iteration.",
         "C14" => "a training history with >= 3 strict forward/backward/update iterations over >= 2 layers and at least one batch-shape change or retained old output.",
         "C18" => "the retired leaf had been an operand of a differentiated graph and a gradient from that pass was still stored or held when it was probed.",
         _ => "the history contains at least one pass.",
@@ -975,6 +1012,7 @@ pub fn cli(args: &[String]) -> i32 {
             check(&args[1], &args[2])
         }
         Some("replay") => replay_file(&args[1]),
+        Some("c19-worker") => crate::c19::worker(),
         Some("trace") => {
             // corgisim trace <profile> <base seed> <run index> [label-prop]
             let pname = &args[1];
@@ -1007,4 +1045,110 @@ pub fn cli(args: &[String]) -> i32 {
             2
         }
     }
+}
+
+/// C19 as run by the f64 binary: native f32 batch in the f32 binary + cross-build comparison.
+pub fn check_c19_parent(tier: &str) -> i32 {
+    let seed: u64 = std::env::var("VERIF_SEED").ok().and_then(|s| s.parse().ok()).unwrap_or(1);
+    let start = Instant::now();
+    let exe = format!("{}/sim/target-f32/release/corgisim", VERIF);
+    if !std::path::Path::new(&exe).exists() {
+        eprintln!("harness error: the f32 simulator binary {} is missing (bin/check builds it)", exe);
+        return 2;
+    }
+    println!("corgisim check C19 tier={} seed={} : (a) native f32 batch", tier, seed);
+    let native = std::process::Command::new(&exe).args(["check", "C19", tier]).output();
+    let native = match native {
+        Ok(o) => o,
+        Err(e) => {
+            eprintln!("harness error: cannot run the f32 binary: {}", e);
+            return 2;
+        }
+    };
+    let nout = String::from_utf8_lossy(&native.stdout).to_string();
+    for l in nout.lines() {
+        if l.starts_with("VIOLATION") || l.starts_with("KNOWN-FINDING") || l.starts_with("violation") || l.starts_with("C19 ") {
+            println!("{}", l);
+        }
+    }
+    let ncode = native.status.code().unwrap_or(2);
+    if ncode != 0 && ncode != 1 {
+        eprintln!("{}", String::from_utf8_lossy(&native.stderr));
+        eprintln!("harness error: the f32 native batch exited with {:?}", native.status.code());
+        return 2;
+    }
+    let nev: serde_json::Value = std::fs::read_to_string(format!("{}/work/C19.native-f32.json", VERIF)).ok().and_then(|s| serde_json::from_str(&s).ok()).unwrap_or(json!({}));
+
+    println!("corgisim check C19: (b) cross-build comparison of integer-data histories");
+    let nruns: u64 = if tier == "thorough" { 1_500_000 } else { 80_000 };
+    let scale = std::env::var("VERIF_RUNS_SCALE").ok().and_then(|s| s.parse::<f64>().ok()).unwrap_or(1.0);
+    let cross = crate::c19::cross(seed, ((nruns as f64) * scale) as u64, if tier == "thorough" { 900.0 } else { 120.0 });
+    if cross.harness_errors > 0 {
+        eprintln!("harness error: {} f32 worker failures", cross.harness_errors);
+        return 2;
+    }
+    let mut exit = if ncode == 1 { 1 } else { 0 };
+    let kf = load_findings();
+    let mut nviol = 0;
+    if let Some((pname, idx, rseed, trace, diff)) = cross.mismatches.first() {
+        let v = Violation { prop: "C19", monitor: "cross_build_int", class: "f64 and f32 builds disagree on an integer-data history".into(), event: 0, detail: diff.clone(), extra: serde_json::Value::Null };
+        if let Some(k) = match_finding(&kf, &v) {
+            println!("KNOWN-FINDING: property=C19 {} [{}]", k.what, k.id);
+        } else {
+            // minimise: the difference must persist
+            let judge = |evs: &[Ev]| -> Vec<Violation> {
+                match crate::c19::cross_replay(evs) {
+                    Ok(Some(d)) => vec![Violation { prop: "C19", monitor: "cross_build_int", class: "f64 and f32 builds disagree on an integer-data history".into(), event: 0, detail: d, extra: serde_json::Value::Null }],
+                    _ => vec![],
+                }
+            };
+            let min = ddmin(&judge, trace, "C19", "cross_build_int", &kf, None, false);
+            let mv = judge(&min).into_iter().next().unwrap_or(v.clone());
+            let path = write_replay("C19", pname, *idx, *rseed, seed, Regime::Int, &min, &mv, "-cross");
+            println!("violation [cross_build_int x{}] {}", cross.mismatches.len(), mv.detail);
+            println!("VIOLATION property=C19 replay={}", path);
+            exit = 1;
+            nviol += cross.mismatches.len();
+        }
+    }
+    let wall = start.elapsed().as_secs_f64();
+    let ncov = nev.get("coverage").cloned().unwrap_or(json!({}));
+    let mut samples: Vec<serde_json::Value> = ncov.get("samples").and_then(|s| s.as_array().cloned()).unwrap_or_default();
+    if let Some(s) = &cross.sample {
+        samples.push(s.clone());
+    }
+    let n_eval = ncov.get("evaluations").and_then(|x| x.as_u64()).unwrap_or(0);
+    let n_nt = ncov.get("distinct_nontrivial").and_then(|x| x.as_u64()).unwrap_or(0);
+    let ev = json!({
+        "property_id": "C19",
+        "tier": tier,
+        "seed": seed,
+        "level": "exploration",
+        "wall_s": wall,
+        "violations": nviol as u64 + nev.get("violations").and_then(|x| x.as_u64()).unwrap_or(0),
+        "coverage": {
+            "evaluations": n_eval + cross.runs,
+            "distinct_nontrivial": n_nt,
+            "rule": format!("{} Cross-build half: integer-data histories (integer coefficients and learning rates, every partial sum <= 2^24) executed by both binaries; every event status, shape, value, gradient and ownership probe must be identical.", ncov.get("rule").and_then(|x| x.as_str()).unwrap_or("")),
+            "samples": samples,
+            "native_f32": ncov,
+            "cross_build": {
+                "histories": cross.runs,
+                "histories_with_a_pass": cross.nontrivial,
+                "events_compared": cross.compared_events,
+                "observations_compared": cross.compared_observations,
+                "mismatching_histories": cross.mismatches.len(),
+            },
+            "runs_per_hour": if wall > 0.0 { ((n_eval + cross.runs) as f64 / wall * 3600.0) as u64 } else { 0 },
+            "components": {"real": "corgi built with --features f32 (native half and cross-build half) and with default features (cross-build half)", "not_run": "blas feature set; the input spaces of C04-C07 under f32 (not applicable to this family)"},
+        },
+        "assumptions": ["sampling, not proof", "restricted to the histories of the claimed properties; per-operation value kernels under f32 (C04-C07) are not decided by this family", "non-integer data is judged on the f32 build natively with the f32-scaled tolerance K*eps32*Mag (K = 1e4); cross-build equality is demanded on integer data only"],
+    });
+    let path = format!("{}/evidence/C19.json", VERIF);
+    if let Err(e) = std::fs::write(&path, serde_json::to_string_pretty(&ev).unwrap()) {
+        eprintln!("harness error: cannot write evidence {}: {}", path, e);
+        return 2;
+    }
+    println!("C19 {}: native f32 runs {}, cross-build histories {} ({} observations), {:.1}s, exit {}", tier, n_eval, cross.runs, cross.compared_observations, wall, exit);
+    exit
 }
